@@ -71,7 +71,8 @@ def functions():
 def tasks(tier):
     W = META["bounds"][tier]["W"]
     ts = [("sig-update", w, s) for w in (0, 1, W) for s in (False, True) if not (s and w == 0)]
-    ts += [("sig-commute", W), ("sig-commit", W), ("mem", W, False, 3), ("mem", W, True, 2), ("mem", 0, False, 1),
+    D = 2 if tier == "quick" else 3
+    ts += [("sig-commute", W), ("sig-commit", W), ("mem", W, False, D), ("mem", W, True, 2), ("mem", 0, False, 1),
            ("engine-commit",), ("edge-waker",), ("timeline", 1), ("timeline", 2), ("timeline", 3), ("clock",),
            ("frame-rule",), ("tb-order",), ("period",)]
     return ts
